@@ -94,6 +94,7 @@ type c09Case struct {
 	CliPlugs  []plugSpec // caller side: global only
 	Msgs      []c09Msg
 	HandlerAt []int // levels at which messages are sent (derived)
+	Unknown   bool  // unknown-call / unknown-push handlers are set (with their own plugins, "handler-1"); messages of level -1 go to unregistered routes
 }
 
 type c09Msg struct {
@@ -141,6 +142,12 @@ func genC09(t *rapid.T, protos []vt.NamedProto) c09Case {
 			c.SrvPlugs = append(c.SrvPlugs, mk(fmt.Sprintf("handler%d", lvl)))
 		}
 	}
+	c.Unknown = rapid.IntRange(0, 2).Draw(t, "unknown") == 0
+	if c.Unknown {
+		for i, n := 0, rapid.IntRange(0, 2).Draw(t, "nunknown"); i < n; i++ {
+			c.SrvPlugs = append(c.SrvPlugs, mk("handler-1"))
+		}
+	}
 	// late global attachments
 	for i, n := 0, rapid.IntRange(0, 2).Draw(t, "nlate"); i < n; i++ {
 		p := mk("gl")
@@ -158,7 +165,12 @@ func genC09(t *rapid.T, protos []vt.NamedProto) c09Case {
 	for i := 0; i < nm; i++ {
 		c.Msgs = append(c.Msgs, c09Msg{
 			Kind:  rapid.SampledFrom([]string{"call", "call", "push"}).Draw(t, "mkind"),
-			Level: rapid.IntRange(0, c.Depth).Draw(t, "mlevel"),
+			Level: func() int {
+				if c.Unknown && rapid.IntRange(0, 2).Draw(t, "tounknown") == 0 {
+					return -1
+				}
+				return rapid.IntRange(0, c.Depth).Draw(t, "mlevel")
+			}(),
 			Act:   rapid.SampledFrom([]string{"ret", "ret", "err"}).Draw(t, "mact"),
 		})
 	}
@@ -387,6 +399,40 @@ func runC09(c c09Case, protos []vt.NamedProto) []string {
 		callRoutes[lvl] = group.RouteCallFunc(C09Call, hp...)
 		pushRoutes[lvl] = group.RoutePushFunc(C09Push, hp...)
 	}
+	if c.Unknown {
+		var up []erpc.Plugin
+		for _, p := range c.SrvPlugs {
+			if p.Where == "handler-1" {
+				up = append(up, mkRec(p, srvLog))
+			}
+		}
+		srv.SetUnknownCall(func(ctx erpc.UnknownCallCtx) (interface{}, *erpc.Status) {
+			srvLog.add("<handler>:call")
+			a := new(LibArg)
+			if _, err := ctx.Bind(a); err != nil {
+				return nil, erpc.NewStatus(4400, "cannot bind", err.Error())
+			}
+			if a.Act == "err" {
+				return nil, erpc.NewStatus(4242, "no", "because")
+			}
+			return &LibRes{Rid: a.Rid, Val: a.Val}, nil
+		}, up...)
+		srv.SetUnknownPush(func(ctx erpc.UnknownPushCtx) *erpc.Status {
+			srvLog.add("<handler>:push")
+			return nil
+		}, up...)
+	}
+	routeOf := func(kind string, level int) string {
+		switch {
+		case level < 0 && kind == "call":
+			return "/c09/not_registered/call"
+		case level < 0:
+			return "/c09/not_registered/push"
+		case kind == "call":
+			return callRoutes[level]
+		}
+		return pushRoutes[level]
+	}
 	// late global attachments, after every route and group exists
 	for _, p := range c.SrvPlugs {
 		if !p.Late {
@@ -414,13 +460,13 @@ func runC09(c c09Case, protos []vt.NamedProto) []string {
 		arg := &LibArg{Rid: fmt.Sprintf("m%d", i), Act: m.Act, Val: "v"}
 		var code int32
 		if m.Kind == "call" {
-			cmd := l.A.AsyncCall(callRoutes[m.Level], arg, new(LibRes), make(chan erpc.CallCmd, 1))
+			cmd := l.A.AsyncCall(routeOf("call", m.Level), arg, new(LibRes), make(chan erpc.CallCmd, 1))
 			if !vt.WaitClosed(cmd.Done()) {
 				return append(fails, vt.Hang(fmt.Sprintf("completion of message %d", i)))
 			}
 			code = cmd.Status().Code()
 		} else {
-			code = l.A.Push(pushRoutes[m.Level], arg).Code()
+			code = l.A.Push(routeOf("push", m.Level), arg).Code()
 		}
 		if code != e.callerCode {
 			failf("message %d (%+v): caller observes status code %d, want %d", i, m, code, e.callerCode)
@@ -435,7 +481,7 @@ func runC09(c c09Case, protos []vt.NamedProto) []string {
 		vt.WaitUntil(func() bool { return srvLog.len()-s0 >= len(e.srv) && cliLog.len()-c0 >= len(e.cli) })
 		gs, gc := srvLog.snapshot()[s0:], cliLog.snapshot()[c0:]
 		if strings.Join(gs, " ") != strings.Join(e.srv, " ") {
-			failf("message %d (%+v, route %s): receiving side hook trace\n got  %v\n want %v", i, m, callRoutes[m.Level], gs, e.srv)
+			failf("message %d (%+v, route %s): receiving side hook trace\n got  %v\n want %v", i, m, routeOf(m.Kind, m.Level), gs, e.srv)
 		}
 		if strings.Join(gc, " ") != strings.Join(e.cli, " ") {
 			failf("message %d (%+v): calling side hook trace\n got  %v\n want %v", i, m, gc, e.cli)
@@ -472,7 +518,7 @@ func (c c09Case) nontrivial() bool {
 	return veto || late && c.Depth >= 1
 }
 
-const ruleC09 = "generated plugin arrangement on the receiving peer (0-2 global-left, 0-2 global-right, a chain of 0-3 nested router groups with 0-2 plugins each, 0-1 handler-level plugin per level, 0-2 global plugins attached AFTER all routes exist via AppendLeft/AppendRight) and 0-2 global plugins on the calling peer; each plugin records a generated subset of 15 stages and at most one plugin vetoes at one stage; 1-6 calls/pushes to handlers at generated nesting levels, handler returns or fails; reference model computes the exact per-message hook trace on both peers, the caller-visible status code, whether bytes may be written and whether the handler runs; non-trivial = >=2 plugins on one stage, a veto, or a late attachment with a nested group; distinct by arrangement"
+const ruleC09 = "generated plugin arrangement on the receiving peer (0-2 global-left, 0-2 global-right, a chain of 0-3 nested router groups with 0-2 plugins each, 0-1 handler-level plugin per level, optionally unknown-call / unknown-push handlers with 0-2 plugins of their own, 0-2 global plugins attached AFTER all routes exist via AppendLeft/AppendRight) and 0-2 global plugins on the calling peer; each plugin records a generated subset of 15 stages and at most one plugin vetoes at one stage; 1-6 calls/pushes to handlers at generated nesting levels or to unregistered routes, handler returns or fails; reference model computes the exact per-message hook trace on both peers, the caller-visible status code, whether bytes may be written and whether the handler runs; non-trivial = >=2 plugins on one stage, a veto, or a late attachment with a nested group; distinct by arrangement"
 
 func TestC09PluginOrder(t *testing.T) {
 	rec := vt.NewRec(t, "C09", "order", ruleC09)
